@@ -13,7 +13,7 @@ structure Sized (nb : Nat) (m : Map X) : Prop where
   rows : m.b.size = nb
   row : ∀ i, i < nb → (rd m.b i).size = m.n
   usz : m.u.size = m.n
-  asz : ∀ s, s < m.a.size → (rd m.a s).size = m.n
+  asz : ∀ s, s < m.a.size → m.n ≤ (rd m.a s).size
 
 /-- the structural invariants quoted by C01 (`nb = 3`) and C02 (`nb = 4`) -/
 structure WFβ (nb : Nat) (m : Map X) : Prop where
@@ -42,7 +42,7 @@ def Mirror (m : Map X) : Prop :=
 
 instance (nb : Nat) (m : Map X) : Decidable (Sized nb m) :=
   decidable_of_iff (0 < m.n ∧ m.b.size = nb ∧ (∀ i, i < nb → (rd m.b i).size = m.n) ∧
-      m.u.size = m.n ∧ (∀ s, s < m.a.size → (rd m.a s).size = m.n))
+      m.u.size = m.n ∧ (∀ s, s < m.a.size → m.n ≤ (rd m.a s).size))
     ⟨fun ⟨a, b, c, d, e⟩ => ⟨a, b, c, d, e⟩, fun ⟨a, b, c, d, e⟩ => ⟨a, b, c, d, e⟩⟩
 
 set_option synthInstance.maxSize 2048 in
